@@ -145,6 +145,7 @@ func (p *feedProbe) OnTx(w *engine.World, tx *engine.TxRecord) {
 
 // Final: "a registered module callback fires exactly once per batch".
 func (p *feedProbe) Final(w *engine.World) {
+	w.Count("probe.durable_queries", int64(len(p.svc.DurableQueries(w, w.Node))))
 	for _, c := range p.svc.Contexts() {
 		if c.ID != p.feedCtx {
 			continue
